@@ -412,7 +412,8 @@ pub fn gen(rng: &mut Rng, size: usize) -> Value {
         7 if rng.chance(1, 3) => crate::doc::write_doc(&crate::doc::normalise_doc(&crate::c06::gen(rng, size)["doc"])),   // C06's damaged mappings in every document context
         7 if rng.chance(1, 2) => crate::doc::write_doc(&crate::c09::gen_hermes_doc(rng, size)),
         7 => { // well-formed documents of the map family: long lines, range flags, > 64 sources/names, every VLQ digit class
-            let m = if rng.chance(1, 2) { crate::c04::gen_c07(rng, size) } else { { let wr = rng.chance(1, 2); crate::c01::gen_model(rng, size, wr) } };
+            let mut m = if rng.chance(1, 2) { crate::c04::gen_c07(rng, size) } else { { let wr = rng.chance(1, 2); crate::c01::gen_model(rng, size, wr) } };
+            if m["op"] == "bigline" { m = crate::c01::gen_model(rng, size, true); }        // (C07's 2^16-segment lines are not documents)
             let d = if m.get("doc").is_some() { m["doc"].clone() } else { crate::maps::model_doc(&crate::maps::model_from_case(&m)) };
             crate::doc::write_doc(&crate::doc::normalise_doc(&d))
         }
